@@ -461,3 +461,42 @@ Proof.
   - rewrite regex_apply_lines_eq. reflexivity.
   - intros r rs. rewrite sast_apply_lines_eq. reflexivity.
 Qed.
+
+(** ** the whole of apply(): read/decode + failure handling (table-indexed on [regex_isolation]) *)
+Definition failure_unfixed (fc : list result) : list unfixed := map (fun f => (f, 0%N)) (all_findings fc).
+
+Lemma regex_apply_file_decoded (sub : str -> str) fc D (mkdiff : list str -> list str -> D) iso v dry lines :
+  regex_apply_file sub fc mkdiff iso v dry (Some lines) = Done (regex_apply sub fc mkdiff v dry lines) /\
+  forall rs, exists o, sast_apply sub fc mkdiff v dry (Some rs) lines = Some o /\
+                       sast_apply_file sub fc mkdiff iso v dry (Some rs) (Some lines) = Done o.
+Proof.
+  split; [reflexivity|]. intros rs. unfold sast_apply_file. rewrite sast_apply_eq. eexists. split; reflexivity.
+Qed.
+
+Definition regex_isolation_statement (iso : regex_isolation) : Prop :=
+  match iso with
+  | TryReadTransform =>
+      forall (sub : str -> str) fc D (mkdiff : list str -> list str -> D) v dry,
+        (* an undecodable file: failure recorded, nothing written, every finding of the file unfixed at line 0 *)
+        regex_apply_file sub fc mkdiff iso v dry None = Failed ReadFailed (failure_unfixed fc) /\
+        (forall results, sast_apply_file sub fc mkdiff iso v dry results None = Failed ReadFailed (failure_unfixed fc)) /\
+        (* _apply raising (SAST class handed results=None): the same with the other reason *)
+        (forall lines, sast_apply_file sub fc mkdiff iso v dry None (Some lines) = Failed TransformFailed (failure_unfixed fc)) /\
+        (* nothing escapes *)
+        (forall decoded, regex_apply_file sub fc mkdiff iso v dry decoded <> Raises) /\
+        (forall results decoded, sast_apply_file sub fc mkdiff iso v dry results decoded <> Raises)
+  | NoTry =>
+      exists (sub : str -> str) fc lines,
+        regex_apply_file sub fc (fun _ _ => tt) iso OneBased false None = Raises /\
+        sast_apply_file sub fc (fun _ _ => tt) iso OneBased false None (Some lines) = Raises
+  end.
+
+Lemma regex_isolation_all iso : regex_isolation_statement iso.
+Proof.
+  destruct iso; cbn [regex_isolation_statement].
+  - exists w_sub, w_fc, w_lines. split; reflexivity.
+  - intros sub fc D mkdiff v dry. split; [reflexivity|]. split; [reflexivity|]. split; [reflexivity|]. split.
+    + intros [lines|]; discriminate.
+    + intros results [lines|]; [|discriminate]. unfold sast_apply_file.
+      destruct (sast_apply sub fc mkdiff v dry results lines); discriminate.
+Qed.
